@@ -76,8 +76,11 @@ def build_file(case, path):
         line_of_row.append(physical)
     for _ in range(blanks.count(nrows)):
         out_lines.append("\n")
+    text = "".join(out_lines)
+    if case.get("crlf"):
+        text = text.replace("\n", "\r\n")
     with open(path, "w", newline="", encoding="utf-8") as f:
-        f.write("".join(out_lines))
+        f.write(text)
     return line_of_row
 
 
@@ -166,6 +169,8 @@ def _check_read(case, rec, tmp):
         rec.label("quoted_header")
     if case.get("garbage"):
         rec.label("garbage_in_other_columns")
+    if case.get("crlf"):
+        rec.label("crlf_file")
     if missing is not None and any(mv == w for w in want):
         rec.label("missing_value_hits")
     return fails
@@ -277,7 +282,8 @@ def read_cases(draw):
         else:
             missing = draw(st.sampled_from([-9999, 99, 0, -9999.5])) if dtype == "Float" else draw(st.sampled_from([-9999, 99, 0]))
     blanks = draw(st.lists(st.integers(0, nrows), max_size=3))
-    case = {"columns": cols, "target": target, "dtype": dtype, "missing": missing, "blanks": blanks, "garbage": garbage}
+    case = {"columns": cols, "target": target, "dtype": dtype, "missing": missing, "blanks": blanks, "garbage": garbage,
+            "crlf": draw(st.integers(0, 3)) == 0}
     f = draw(st.sampled_from([None] * 6 + ["missing_header", "non_numeric"]))
     if f == "missing_header" and not any(c["name"] == names[target] + "_absent" for c in cols):
         case["fault"] = f
